@@ -89,6 +89,13 @@ def build_case(cap, margs, info_by_style, g, dm, ann, variant, style, lay, tier,
         text, iname, _ = G.make_psy(info, dm, ann, variant)
         it = G.itemise(text, iname)
         threads = _threads(tier, variant, bool(it.alloc))
+    return _records(label, cap, it, [(g, actual)], threads, dm, ann, variant, style, lay,
+                    tier, alg)
+
+
+def _records(label, cap, it, steps, threads, dm, ann, variant, style, lay, tier, alg):
+    '''Case records (one per thread-count group) of an itemised invoke whose
+    built-ins are `steps` = [(guide entry, actual arguments)] in call order.'''
     undf = G.LAYOUT_UNDF[lay]
     if it.alloc and len(threads) > 1:
         # the thread count is the second extent of the reproducible-sum array:
@@ -96,38 +103,36 @@ def build_case(cap, margs, info_by_style, g, dm, ann, variant, style, lay, tier,
         threads_cases = [[t] for t in threads]
     else:
         threads_cases = [threads]
-    bind = None
+    docs = None
     out = []
     for thr in threads_cases:
         decls, prog, syn = G.export(it, undf, max(thr))
-        if bind is None:
-            bind = G.bind_doc(g["args"], actual, it)
-        bound = {v["name"] for v in bind.values() if v.get("k") == "ref"}
+        if docs is None:
+            docs = [{"doc": g["doc"], "bind": G.bind_doc(g["args"], actual, it)}
+                    for g, actual in steps]
+        bound = {v["name"] for d in docs for v in d["bind"].values() if v.get("k") == "ref"}
         dom = []
         for d in decls:
             if d["init"] == "in" and not d["dims"]:
                 vals = REAL_VALUES if d["ty"] == "r" else INT_VALUES
                 # a scalar of another kernel of the invoke: one value
                 dom.append([d["name"], vals if d["name"] in bound else vals[3:4]])
-        red = ""
-        for n, (ty, intent) in it.scalars.items():
-            if intent == "out":
-                if red:
-                    raise Unsupported("two intent(out) scalars")
-                red = n
+        reds = [n for n, (ty, intent) in it.scalars.items() if intent == "out"]
         cid = "%s|dm%d|ann%d|%s|%s|lay%d" % (label, dm, ann, variant, style, lay)
         if len(threads_cases) > 1:
             cid += "|T%d" % thr[0]
         out.append({
             "case": {"id": cid, "dm": bool(dm), "ann": bool(ann), "lay": lay, "undf": undf,
-                     "decls": decls, "dom": dom, "fills": FILLS.get(tier, FILLS["thorough"]), "threads": thr,
-                     "prog": prog, "doc": g["doc"], "bind": bind,
+                     "decls": decls, "dom": dom,
+                     "fills": FILLS.get(tier, FILLS["thorough"]), "threads": thr,
+                     "prog": prog, "docs": docs,
                      "fields": sorted(it.data), "scalars": [d[0] for d in dom],
-                     "red": red},
+                     "reds": reds},
             "meta": {"builtin": cap, "dm": dm, "ann": ann, "variant": variant,
                      "style": style, "lay": lay, "bounds": sorted(set(it.bounds)),
-                     "doc_line": g["line"], "doc_text": g["text"],
-                     "doc_args": [a[0] for a in g["args"]],
+                     "doc_line": steps[0][0]["line"],
+                     "doc_text": [t for g, _ in steps for t in g["text"]],
+                     "doc_args": [[a[0] for a in g["args"]] for g, _ in steps],
                      "algorithm": alg, "generated": syn}})
     return out
 
@@ -210,6 +215,121 @@ def _build_file(fname, tier, table):
     return res
 
 
+# ------------------------------------------------ chains of built-ins
+# several built-ins of one invoke that share fields: a field written by one is
+# read or incremented by a later one.  Entries: (built-in, actual arguments);
+# f* real fields, n* integer fields, a/b real scalars, k integer scalar, s a
+# reduction result.
+FIXED_CHAINS = {
+    "c1": [("setval_c", "f1 a"), ("X_plus_Y", "f2 f1 f3"), ("inc_a_times_X", "b f1")],
+    "c2": [("X_minus_Y", "f3 f1 f2"), ("inc_aX_plus_Y", "a f3 f1")],
+    "c3": [("a_times_X", "f2 a f1"), ("inc_X_plus_Y", "f2 f1"),
+           ("X_innerproduct_Y", "s f2 f1")],
+    "c4": [("int_setval_c", "n1 k"), ("int_X_plus_Y", "n2 n1 n3"),
+           ("int_inc_a_times_X", "k n1")],
+    "c5": [("setval_X", "f2 f1"), ("inc_X_times_Y", "f2 f1"), ("sum_X", "s f2")],
+    "c6": [("real_to_int_X", "n1 f1"), ("int_to_real_X", "f2 n1")],
+}
+CHAIN_VARIANTS = ("plain", "ompl", "omp2")     # thorough adds omp2r
+
+
+def random_chains(table, seed, count):
+    '''`count` chains of 2-3 real-valued, non-reduction built-ins (no division
+    or power: every input stays in the domain) in which every built-in after
+    the first reads or increments the field the previous one wrote.'''
+    import random
+    rnd = random.Random(2000 + seed)
+    pool = sorted(
+        (cap, margs) for cap, margs in table
+        if all(ty == "r" for _, ty, _ in margs)
+        and not any(acc == "gh_sum" for _, _, acc in margs)
+        and not any(w in cap for w in ("divideby", "pow", "random", "real_to_real")))
+    res = {}
+    for n in range(count):
+        chain, prev = [], None
+        nsc = 0
+        for step in range(rnd.choice((2, 3))):
+            while True:
+                cap, margs = rnd.choice(pool)
+                readers = [i for i, (kind, _, acc) in enumerate(margs)
+                           if kind == "field" and acc in ("gh_read", "gh_readwrite")]
+                if prev is None or readers:
+                    break
+            names = [None] * len(margs)
+            if prev is not None:
+                names[rnd.choice(readers)] = prev
+            for i, (kind, _, acc) in enumerate(margs):
+                if names[i] is not None:
+                    continue
+                if kind == "scalar":
+                    names[i] = "ab"[nsc % 2]
+                    nsc += 1
+                else:
+                    free = [f for f in ("f1", "f2", "f3") if f not in names]
+                    names[i] = rnd.choice(free)
+            wr = [names[i] for i, (kind, _, acc) in enumerate(margs)
+                  if kind == "field" and acc in ("gh_write", "gh_readwrite")]
+            prev = wr[0]
+            chain.append((cap, " ".join(names)))
+        res["r%d_%d" % (seed, n)] = chain
+    return res
+
+
+def chains(tier, table):
+    res = dict(FIXED_CHAINS)
+    res.update(random_chains(table, core.seed(), 3 if tier == "quick" else 12))
+    return res
+
+
+def _build_chain(cid, chain, tier, table):
+    from psyclone.parse.algorithm import parse
+    res = {"builtin": "chain:" + cid, "cases": [], "unsupported": [], "nodoc": False,
+           "skipped": None, "refused": []}
+    caps = {c.lower(): c for c in table}
+    steps, calls = [], []
+    for name, args in chain:
+        cap = caps[name.lower()]
+        g = _GUIDE.get(cap.lower())
+        if g is None:
+            res["nodoc"] = True
+            return res
+        if "doc" not in g:
+            res["unsupported"].append(("chain:" + cid, "definition not understood: " + g["error"]))
+            return res
+        actual = [{"kind": kind, "ty": ty, "name": nm}
+                  for (kind, ty, _), nm in zip(table[cap], args.split())]
+        if len(actual) != len(table[cap]):
+            raise core.MachineryError("chain %s: argument count of %s" % (cid, cap))
+        steps.append((g, actual))
+        calls.append((cap, args.split()))
+    tmp = core.mktemp("pv-c20-")
+    try:
+        alg = G.alg_source_chain(calls, [a for _, acts in steps for a in acts])
+        path = os.path.join(tmp, "alg_chain.f90")
+        with open(path, "w") as f:
+            f.write(alg)
+        _, info = parse(path, api="dynamo0.3")
+        variants = CHAIN_VARIANTS if tier == "quick" else CHAIN_VARIANTS + ("omp2r",)
+        for dm in (0, 1):
+            for ann in (0, 1):
+                for variant in variants:
+                    label = "chain:%s|dm%d|ann%d|%s" % (cid, dm, ann, variant)
+                    try:
+                        text, iname = G.make_psy_chain(info, dm, ann, variant, len(chain))
+                        it = G.itemise(text, iname)
+                        threads = _threads(tier, variant, bool(it.alloc))
+                        res["cases"] += _records(
+                            "chain:" + cid, "+".join(c for c, _ in calls), it, steps,
+                            threads, dm, ann, variant, "chain", 1, tier, alg)
+                    except G.Refused as err:
+                        res["refused"].append((label, str(err)))
+                    except Unsupported as err:
+                        res["unsupported"].append((label, str(err)))
+    finally:
+        shutil.rmtree(tmp, ignore_errors=True)
+    return res
+
+
 MULTI_ALWAYS = ("setval_c", "X_plus_Y", "inc_aX_plus_Y", "sum_X")
 
 
@@ -270,6 +390,8 @@ def _build(job):
         return _build_file(cap, tier, margs)
     if kind == "multi":
         return _build_multi(cap, margs, tier)
+    if kind == "chain":
+        return _build_chain(cap, margs[0], tier, margs[1])
     res = {"builtin": cap, "cases": [], "unsupported": [], "nodoc": False, "skipped": None}
     g = _GUIDE.get(cap.lower())
     if g is None:
@@ -451,8 +573,11 @@ def run(tier):
     multi = set(multi_builtins(tier, table))
     jobs += [("multi", cap, margs, tier) for cap, margs in table if cap in multi]
     if not only:
+        full = G.builtin_table()
+        jobs += [("chain", cid, (chain, dict(full)), tier)
+                 for cid, chain in sorted(chains(tier, full).items())]
         jobs += [("file", f, dict(table), tier) for f in repo_files()]
-    fams = os.environ.get("PV_C20_FAMILIES")   # development aid: gen,multi,file
+    fams = os.environ.get("PV_C20_FAMILIES")   # development aid: gen,multi,chain,file
     if fams:
         jobs = [j for j in jobs if j[0] in fams.split(",")]
     results = core.pool_map(_build, jobs, procs=_W, chunksize=1)
@@ -554,6 +679,7 @@ def run(tier):
            "builtins": len(table), "documented_builtins": len(guide),
            "repository_algorithm_files": len([j for j in jobs if j[0] == "file"]),
            "repository_files_skipped": skipped,
+           "chains": {j[1]: [list(c) for c in j[2][0]] for j in jobs if j[0] == "chain"},
            "kernel_plus_builtin_invokes": sorted(multi),
            "histories": {k: list(v) for k, v in G.HISTORIES.items()},
            "histories_refused": len(refused), "refused_samples": refused[:3],
